@@ -16,7 +16,7 @@ from ..cfg import cfg_of
 from ..index import AnalysisError, dotted, function_stmts, walk_no_nested
 from ..roles import (api_classes, callable_list_loops, reason_codes_in,
                      schema_backend_classes, self_method)
-from ..util import callee_last, calls_in, guard_atoms, kw, txt, enclosing
+from ..util import Expander, path_condition, callee_last, calls_in, guard_atoms, kw, txt, enclosing
 
 EXPLANATION = (
     "Static analysis of pandera's source (ast, no execution of pandera). Decides structural clauses that are "
@@ -30,6 +30,7 @@ EXPLANATION = (
     "(R5) get_validation_depth decision table and its use around every polars backend validate call; (R6) no backend function reads validation_depth by itself outside the @validate_scope machinery and the enumerated coercion-mode readers, so the verdict inside one scope does not depend on the depth. (R7) the polars coercion stages choose the same coercion mode (try_coerce vs lazy coerce) under DATA_ONLY and SCHEMA_AND_DATA - decision table evaluated over the ValidationDepth members. " 
     "It does NOT "
     "decide the verdict equalities over data (accept_SAD <=> accept_SO and accept_DO)."
+    " (R8) in the pandas / polars schema backends a `raise SchemaError(reason_code=R)` whose R is mapped to the SCHEMA scope and that sits in a function without @validate_scope (a parser-pipeline step such as strict_filter_columns) is conditional on the validation depth; INVALID_COLUMN_NAME (a definition error) is the listed exception. (R9) every `add_schema` call site (the 'already validated' marker trusted by check_types and DataFrame[Model]) is behind the enabled gate: inside a schema backend or guarded by validation_enabled."
 )
 LEVEL_RULE = ("obligations are (rule, function, construct) triples enumerated from the current tree; distinct = "
               "distinct triples; every one is non-trivial in that it names a concrete construct of /repo")
@@ -671,6 +672,90 @@ def r7_coercion_mode(ctx):
         raise AnalysisError(f"polars coercion-mode decisions: expected 2 (container helper, column backend), found {n}")
 
 
+RAISE_SCOPE_EXCEPTIONS = {
+    "INVALID_COLUMN_NAME": "a definition error of the schema (Column without a name, regex that matches nothing), raised whatever the data and the depth",
+}
+
+
+def r8_schema_level_raises_are_depth_scoped(ctx):
+    """DATA_ONLY "does not validate the schema" (docs/source/error_report.md): the verdict is that of the data-level part.
+    Core *checks* get their scope from `@validate_scope` (R3); the steps of the parser pipeline (`strict_filter_columns`,
+    ...) are plain methods and run at every depth - a `raise SchemaError(reason_code=R)` in them, with R mapped to the
+    SCHEMA scope by VALIDATION_DEPTH_ERROR_CODE_MAP, has to be conditional on the validation depth.  Otherwise DATA_ONLY
+    rejects a frame whose only fault is an extra / out-of-order column, and in lazy mode the error handler, which drops
+    out-of-scope reason codes, raises SchemaErrors with an empty report."""
+    ix = ctx.ix
+    smap = _scope_map(ix)
+    n = 0
+    for bc in schema_backend_classes(ix, ("pandas", "polars")):
+        for f in [x for lst in bc.methods.values() for x in lst]:
+            if any("validate_scope" in txt(d) for d in f.node.decorator_list):
+                continue
+            raises = []
+            for st in function_stmts(f):
+                if isinstance(st, ast.Raise) and isinstance(st.exc, ast.Call) and callee_last(st.exc) == "SchemaError":
+                    r = kw(st.exc, "reason_code")
+                    code = txt(r).split(".")[-1] if r is not None else None
+                    if code and smap.get(code) == "SCHEMA" and code not in RAISE_SCOPE_EXCEPTIONS:
+                        raises.append((st, code))
+            if not raises:
+                continue
+            ctx.touched(f)
+            cfg = cfg_of(f.node)
+            ex = Expander(f.node)
+            for st, code in raises:
+                n += 1
+                node = cfg.node_of(st)
+                # the condition under which the raise is reached must *depend* on the depth (atoms read through local
+                # definitions; an earlier depth-guarded early exit does not make this raise depth-conditional)
+                try:
+                    pc = path_condition(cfg, node.id, keep=lambda t, nn: "validation_depth" in t or "ValidationDepth" in t, expand=ex) \
+                        if node is not None else ((), frozenset())
+                except ValueError:
+                    pc = ((), frozenset())
+                depth_guard = bool(pc[0])
+                ctx.ob("R8", f, f"{f.short}: `raise SchemaError(reason_code={code})` (schema scope) is conditional on the validation depth", depth_guard,
+                       "guarded by the depth" if depth_guard else
+                       f"{code} is raised at every depth by a step of the parser pipeline: under DATA_ONLY DataFrameSchema({{'a': Column(int)}}, strict=True) rejects "
+                       "a frame with an extra column although every data-level constraint holds, and with lazy=True the SchemaErrors report is empty", f.loc(st))
+    if n < 2:
+        raise AnalysisError(f"schema-scope raises outside validate_scope found: {n}")
+
+
+def r9_nothing_marked_validated_while_disabled(ctx):
+    """With validation disabled `validate` returns its argument untouched - also unmarked: `<obj>.pandera.add_schema(S)`
+    is the "already validated against S" marker that `check_types` and `DataFrame[Model]` trust to skip validation later,
+    after the configuration was restored.  Every call site of `add_schema` is therefore behind the enabled gate: inside a
+    schema backend (reached only through the gated API entry points, R4) or in a function where a `validation_enabled`
+    test guards it.  Otherwise an object built while validation is off stays exempt from validation for good."""
+    ix = ctx.ix
+    n = 0
+    for m in ix.modules.values():
+        if not m.path.startswith("pandera/") or "/pyspark" in m.path or m.path.startswith("pandera/accessors/"):
+            continue
+        for f in m.all_functions:
+            sites = [c for c in calls_in(f.node) if callee_last(c) == "add_schema" and isinstance(c.func, ast.Attribute)]
+            if not sites:
+                continue
+            cfg = cfg_of(f.node)
+            for c in sites:
+                n += 1
+                ctx.touched(f)
+                in_backend = "/backends/" in m.path
+                st = c
+                while not isinstance(st, ast.stmt):
+                    st = st._parent
+                node = cfg.node_of(st)
+                gated = any("validation_enabled" in txt(t) for t, _ in (cfg.guards(node.id) if node is not None else []))
+                ok = in_backend or gated
+                ctx.ob("R9", f, f"{f.short}: `{txt(c)[:50]}` is behind the enabled gate", ok,
+                       ("schema backend: reached through the gated entry points (R4)" if in_backend else "guarded by validation_enabled") if ok else
+                       f"`{txt(c)}` marks the object as validated although `validate` is a no-op while validation is disabled: DataFrame[Model]({{'a': [-1]}}) built under "
+                       "config_context(validation_enabled=False) passes every later @check_types call unvalidated", f.loc(c))
+    if n < 5:
+        raise AnalysisError(f"add_schema call sites found: {n}")
+
+
 def run(ctx):
     r1_env_table(ctx)
     r2_config_context(ctx)
@@ -679,5 +764,7 @@ def run(ctx):
     r5_polars_depth(ctx)
     r6_depth_readers(ctx)
     r7_coercion_mode(ctx)
+    r8_schema_level_raises_are_depth_scoped(ctx)
+    r9_nothing_marked_validated_while_disabled(ctx)
     ctx.assume("os.environ is read only through os.environ.get/os.getenv/os.environ[...] inside pandera/config.py")
     ctx.assume("validate_scope implements skip-by-depth as written (its body is covered by R3's decorator lookup, not re-proved)")
